@@ -187,6 +187,21 @@ func Observe(v uint64) {
 	t.obs = mix(t.obs, v)
 }
 
+// WriterWaiting reports whether some live thread is parked at a write-lock acquisition of the
+// RWMutex at addr. Go's RWMutex gives a blocked Lock call precedence over later RLock calls
+// ("a blocked Lock call excludes new readers"); the shim needs this to decide whether a read
+// lock attempt on a read-held mutex may proceed.
+//
+//go:norace
+func WriterWaiting(addr unsafe.Pointer) bool {
+	for _, t := range threads {
+		if t != nil && t.state != stDone && t.waitKind == KWLock && t.addr == addr {
+			return true
+		}
+	}
+	return false
+}
+
 //go:norace
 func enabledThread(t *thread) bool {
 	if t.state == stDone {
